@@ -140,6 +140,8 @@ def run(ctx):
                     f = rnd.choice(cond_only)
                     cands = candidates(gp.kinds[f], gp.lits.get(f, []), rnd)
                     rnd.shuffle(cands)
+                    if gp.kinds[f] == "num" and rnd.random() < 0.5:
+                        cands = [float("nan"), float("inf"), float("-inf")] + cands  # unordered / extreme values route too
                     for alt in cands[:8]:
                         env2 = dict(env)
                         env2[f] = alt
